@@ -33,6 +33,9 @@ TRUSTED = [
     "parser covers hex digits, hyphens, braces, urn:/uuid: prefixes only (int(x,16) extras such as sign, 0x, '_', "
     "blanks are not modelled; they never occur in a file written by persist); bytes.fromhex's tolerance of blanks likewise",
     "harness/ref/pairings.py list decoder, harness generators; states are generated through the C06 request path",
+    "multi-save stream: one real driver per history, driver.async_persist replaced by a synchronous call of the real "
+    "driver.persist; the model side of that stream is persist/load of the in-memory state at each save (C14_history_roundtrip); "
+    "whether and when the driver writes the file is otherwise C15's concern",
 ]
 
 MAXCV = 65535
@@ -344,6 +347,225 @@ def gen_docs(ctx: Ctx) -> List[Dict[str, Any]]:
     return docs
 
 
+
+# ----------------------------------------------------------------------------- multi-save histories
+#
+# ONE driver object lives through a whole history of state changes, each of which saves through the
+# real `driver.persist()` (synchronously); after every completed save the file on disk is loaded
+# into a fresh driver/State and must give exactly the in-memory state of that moment. "Restarts"
+# (a fresh driver that loads the file through add_accessory and carries on) happen at random points,
+# also from files turned into legacy files (members stripped), where pair-verify back-fills the
+# identifier bytes.
+
+
+def h_pair(c, perm):
+    return {"k": "pair", "id": hx(c["id"]), "seed": hx(c["seed"]), "perm": perm}
+
+
+def h_add(c, perm, newkey=False):
+    return {"k": "add", "id": hx(c["id"]), "seed": hx(c["seed"]), "perm": perm, "newkey": newkey}
+
+
+def run_history(ops: List[Dict[str, Any]], collect: bool = True):
+    """Returns (model lines, impl results, failure | None, trace). Stops judging at the first failure."""
+    real = c06.Real(with_accessory=True)
+    lines, impls, trace = [], [], []
+    fail = None
+    try:
+        for i, op in enumerate(ops):
+            st = real.state
+            calls0 = real.persist_calls
+            saved = False
+            k = op["k"]
+            admin = next((u for u in st.paired_clients if st.is_admin(u)), None)
+            if k == "pair" or (k == "add" and admin is None):
+                key = refpv.controller_key(bytes.fromhex(op["seed"]))[1]
+                try:
+                    real.driver.pair(bytes.fromhex(op["id"]), key, bytes([op["perm"]]))
+                except Exception:  # noqa: BLE001
+                    pass
+            elif k == "add":
+                key = refpv.controller_key(bytes.fromhex(op["seed"]))[1]
+                if op.get("newkey"):
+                    key = bytes(b ^ 0x5A for b in key)
+                real.request(True, admin.int, bytes.fromhex(c06.add_body(bytes.fromhex(op["id"]), key, bytes([op["perm"]]))))
+            elif k == "remove" and admin is not None:
+                real.request(True, admin.int, bytes.fromhex(c06.remove_body(bytes.fromhex(op["id"]))))
+            elif k == "unpair":
+                u = c06.parse_id(bytes.fromhex(op["id"]))
+                if u is not None and uuidlib.UUID(int=u) in st.paired_clients:
+                    real.driver.unpair(uuidlib.UUID(int=u))
+            elif k == "verify":
+                post, _h = real.connection()
+                idn = real.ident()
+                try:
+                    refpv.pair_verify(lambda b: post("/pair-verify", b), bytes.fromhex(op["id"]), bytes.fromhex(op["seed"]),
+                                      bytes.fromhex(idn["public_key"]), st.mac.encode())
+                except Exception:  # noqa: BLE001
+                    pass
+            elif k == "config":
+                st.increment_config_version()
+                real.driver.persist()
+                saved = True
+            elif k == "hash":
+                st.set_accessories_hash(op["h"])
+                real.driver.persist()
+                saved = True
+            elif k in ("restart", "strip"):
+                if k == "strip":  # turn the file into one written by an older version
+                    with open(real.path, "r", encoding="utf8") as fh:
+                        tree = json.load(fh)
+                    for m in op["members"]:
+                        tree.pop(m, None)
+                    with open(real.path, "w", encoding="utf8") as fh:
+                        json.dump(tree, fh)
+                try:
+                    nxt = c06.Real(with_accessory=True, state_file_from=real.path)
+                except Exception as ex:  # noqa: BLE001
+                    fail = fail or ("C14:load-failed", f"restart after step {i}: loading the state file raised {type(ex).__name__}", i)
+                    break
+                real.close()
+                real = nxt
+            saved = saved or real.persist_calls > calls0
+            trace.append([k, saved, len(real.state.paired_clients), len(real.state.uuid_to_bytes)])
+            if not saved:
+                continue
+            # a save completed: the file on disk must load to exactly the state of this moment
+            memory = full_state(real)
+            doc = real.file_doc()
+            chk = None
+            try:
+                chk = c06.Real(state_file_from=real.path)
+                chk.driver.load()
+                loaded = full_state(chk)
+            except Exception as ex:  # noqa: BLE001
+                loaded = None
+                fail = fail or ("C14:load-failed", f"the file saved at step {i} ({k}) does not load: {type(ex).__name__}", i)
+            finally:
+                if chk is not None:
+                    chk.close()
+            if collect:
+                lines.append({"layer": "encoder", "op": "roundtrip", "state": memory})
+                impls.append({"doc": doc, "loaded": loaded})
+            if loaded is not None and fail is None:
+                dv0, dv1 = dict_view(memory), dict_view(loaded)
+                diff = [f for f in dv0 if dv0[f] != dv1[f]]
+                if diff:
+                    fail = ("C14:saved-file-stale:" + diff[0],
+                            f"after the save of step {i} ({k}) the file on disk loads to a state whose {diff} differ from the "
+                            f"in-memory state ({len(memory['paired'])} controllers): a restart now would lose that change", i)
+            if fail is not None:
+                break
+        return lines, impls, fail, trace
+    finally:
+        real.close()
+
+
+def gen_history(ctx: Ctx) -> List[Dict[str, Any]]:
+    rng = ctx.rng
+    cs = [{"id": c06.spell(rng, rng.getrandbits(128)), "seed": c06.key_of(rng)} for _ in range(rng.choice([2, 3, 4]))]
+    ops: List[Dict[str, Any]] = [h_pair(cs[0], 1)]
+    perms = [0, 1, 1, 0, 3, 2, 128, 129, 255]
+    for _ in range(rng.randrange(4, 12)):
+        r = rng.random()
+        c = rng.choice(cs)
+        if r < 0.30:
+            ops.append(h_add(c, rng.choice(perms), newkey=rng.random() < 0.15))  # often: same controller, same key, other permission
+        elif r < 0.40:
+            ops.append(h_pair(c, rng.choice(perms)))
+        elif r < 0.50:
+            ops.append({"k": rng.choice(["remove", "unpair"]), "id": hx(rng.choice(cs[1:])["id"])})
+        elif r < 0.62:
+            ops.append({"k": "verify", "id": hx(c["id"]), "seed": hx(c["seed"])})
+        elif r < 0.70:
+            ops.append({"k": "config"})
+        elif r < 0.76:
+            ops.append({"k": "hash", "h": rng.choice(["", "ab" * 32, hx(c06.key_of(rng))])})
+        elif r < 0.90:
+            ops.append({"k": "restart"})
+        else:
+            ops.append({"k": "strip", "members": rng.choice([["client_uuid_to_bytes"], ["client_properties"], ["client_properties", "client_uuid_to_bytes"],
+                                                             ["client_uuid_to_bytes", "accessories_hash"]])})
+            ops.append({"k": "verify", "id": hx(c["id"]), "seed": hx(c["seed"])})
+    return ops
+
+
+def boundary_histories(ctx: Ctx) -> List[List[Dict[str, Any]]]:
+    rng = ctx.rng
+    A, B = ({"id": c06.spell(rng, rng.getrandbits(128), how), "seed": c06.key_of(rng)} for how in (1, 0))
+    vA = {"k": "verify", "id": hx(A["id"]), "seed": hx(A["seed"])}
+    vB = {"k": "verify", "id": hx(B["id"]), "seed": hx(B["seed"])}
+    out = []
+    for p0, p1 in ((0, 1), (1, 0), (0, 128), (1, 3), (0, 255), (1, 129)):
+        # only a permission byte changes between two saves (same id bytes, same key); then once more after a restart
+        out.append([h_pair(A, 1), h_add(B, p0), h_add(B, p1), {"k": "restart"}, h_add(B, p0), h_add(B, p1)])
+        out.append([h_pair(A, 1), h_pair(B, p0), h_pair(B, p1), {"k": "config"}, h_pair(B, p0)])
+    for members in (["client_uuid_to_bytes"], ["client_properties", "client_uuid_to_bytes"], ["client_properties"]):
+        # legacy start: pair-verify back-fills the identifier bytes and saves
+        out.append([h_pair(A, 1), h_add(B, 0), {"k": "strip", "members": members}, vB, vA, {"k": "restart"}, h_add(B, 1), vB])
+        out.append([h_pair(A, 1), {"k": "strip", "members": members}, vA, h_add(B, 0), {"k": "strip", "members": members}, vB, vB])
+    # the spelling of the identifier changes, nothing else; key changes, nothing else
+    B2 = {"id": B["id"].swapcase(), "seed": B["seed"]}
+    out.append([h_pair(A, 1), h_add(B, 0), h_add(B2, 0), h_add(B, 0), {"k": "restart"}, h_add(B2, 0)])
+    out.append([h_pair(A, 1), h_add(B, 0), h_add(B, 0, newkey=True), h_add(B, 0)])
+    out.append([h_pair(A, 1), h_add(B, 0), {"k": "remove", "id": hx(B["id"])}, h_add(B, 0), {"k": "unpair", "id": hx(B["id"])}, {"k": "hash", "h": "cd" * 32},
+                {"k": "hash", "h": "cd" * 32}, {"k": "config"}, {"k": "restart"}, {"k": "config"}])
+    out.append([h_pair(A, 1), h_add(B, 0), {"k": "remove", "id": hx(A["id"])}, {"k": "restart"}, h_pair(B, 1)])  # last admin gone; ids stay recorded
+    return out
+
+
+def record_history_failure(ctx: Ctx, ops, fail):
+    sig = fail[0]
+    cut = ops[: fail[2] + 1]
+
+    def still(cand):
+        try:
+            f = run_history(cand, collect=False)[2]
+            return f is not None and f[0] == sig
+        except Exception:  # noqa: BLE001
+            return False
+
+    small = c06.delta_min(cut, still)
+    f2 = run_history(small, collect=False)[2]
+    desc = f2[1] if f2 and f2[0] == sig else fail[1]
+    ctx.fail(sig, f"{desc} [history of {len(small)} step(s) on one driver]", {"kind": "history", "ops": small})
+
+
+def run_histories(ctx: Ctx):
+    st = ctx.stats
+    hs = boundary_histories(ctx)
+    nb = len(hs)
+    hs += [gen_history(ctx) for _ in range(ctx.n(150, 2500))]
+    st.notes.append(f"multi-save stream: {nb} deterministic + {len(hs) - nb} random histories on ONE driver each (pair / add-pairing with a changed "
+                    "permission, key or spelling / remove / unpair / pair-verify back-fill / config and hash changes / restarts / files turned "
+                    "legacy), file checked after every completed save")
+    all_lines, all_impls = [], []
+    for ops in hs:
+        lines, impls, fail, trace = run_history(ops)
+        all_lines += lines
+        all_impls += impls
+        if fail:
+            record_history_failure(ctx, ops, fail)
+            st.hit("outcome", "oracle:" + fail[0])
+        st.case(["h", trace], True)
+        for t in trace:
+            st.hit("op", "history-" + t[0])
+            if t[1]:
+                st.hit("outcome", "history/save-checked-by-fresh-load")
+    model = run_model_parallel("C14", all_lines)
+    for ln, m, impl in zip(all_lines, model, all_impls):
+        st.traces_validated += 1
+        mm = canon_model_roundtrip(m)
+        if mm != impl:
+            field = "doc" if mm["doc"] != impl["doc"] else "loaded"
+            sub = ""
+            if isinstance(mm[field], dict) and isinstance(impl[field], dict):
+                sub = "/" + next((k for k in impl[field] if mm[field].get(k) != impl[field].get(k)), "?")
+            ctx.disagree(f"encoder/history-save/{field}{sub}", {"state": _short_state(ln["state"])}, _short(mm[field]), _short(impl[field]))
+    st.sample({"history": [{k: (v if not isinstance(v, str) or len(v) < 20 else v[:20] + "...") for k, v in o.items()} for o in hs[0]],
+               "saves_checked": sum(1 for _ in all_lines)})
+
+
 # ----------------------------------------------------------------------------- entry points
 
 
@@ -411,6 +633,7 @@ def run(ctx: Ctx):
         st.traces_validated += 1
         if m != impl:
             ctx.disagree("encoder/load-document", {"doc": _short(ln["doc"])}, _short(m), _short(impl))
+    run_histories(ctx)
     st.sample({"state": _short_state(lines[1]["state"]), "file_tree": _short(impls[1]["doc"]), "model_agrees": canon_model_roundtrip(model[1]) == {k: impls[1][k] for k in ("doc", "loaded")}})
     st.sample({"state": _short_state(lines[-1]["state"]), "pair_verify_before_after": impls[-1].get("pair_verify"),
                "model_agrees": canon_model_roundtrip(model[len(lines) - 1]) == {k: impls[-1][k] for k in ("doc", "loaded")}})
@@ -439,6 +662,10 @@ def search(ctx: Ctx):
             fail = run_doc_case(d, kind)[2]
             if fail:
                 ctx.fail(fail[0], fail[1], {"kind": "doc", "doc": d, "doc_kind": kind})
+        for ops in boundary_histories(ctx) + [gen_history(ctx) for _ in range(2500)]:
+            fail = run_history(ops, collect=False)[2]
+            if fail:
+                record_history_failure(ctx, ops, fail)
     finally:
         ctx.tier = saved
 
@@ -448,6 +675,12 @@ def replay(ctx: Ctx, r):
         line, impl, fail = run_state_case(ctx, r["spec"], 0 if r.get("via_add_accessory") else 1)
         print("state:", _short_state(line["state"]))
         print("loaded:", "load failed" if impl["loaded"] is None else _short_state(impl["loaded"]))
+    elif r.get("kind") == "history":
+        _l, _i, fail, trace = run_history(r["ops"], collect=False)
+        for op, t in zip(r["ops"], trace):
+            desc = {k: (v if not isinstance(v, str) or len(v) < 24 else bytes.fromhex(v).decode(errors="replace") if k == "id" else v[:16] + "...") for k, v in op.items()}
+            print(f"  {desc} -> save {'completed, file checked by a fresh load' if t[1] else 'not requested'}; controllers={t[2]} recorded ids={t[3]}")
+        fail = fail[:2] if fail else None
     elif r.get("kind") == "doc":
         line, impl, fail = run_doc_case(r["doc"], r.get("doc_kind", "damaged"))
         print("document members:", sorted(r["doc"]), "->", _short(impl))
